@@ -36,3 +36,9 @@ claim("C04",
   "Decides structural necessary conditions of C04 for every event order: a member can never be inserted into one of pending/waiting/bound without leaving the others; Permit cannot return Success once a gang of the group was missing or invalid, and validates every gang of the group; every core status has a case and only Success releases the group; strict mode always rejects the group on a failed or rolled-back member; the member maps are only touched under the gang lock. It does not decide the counting (>= minMember) nor interleavings across several calls.",
   "trusts go/ssa and the rule tables in internal/rules/c04.go; two partition exemptions rely on the scheduler framework contract (no Permit/Unreserve after PostBind)",
   "DESIGN.md §4 C04")
+
+claim("C11",
+  "custom SSA/AST rules: dominating-guard rules on the Evict call, event-started exploration for mark/credit/test-before-next-eviction, control-dependence slice for the contribution gate, guard-vector sibling comparison of the victim builders, comparator key-chain extraction, narrowing-conversion rule on the parsed eviction priority",
+  "Decides structural necessary conditions of C11 for every pod set and fault pattern: Evict only for pods not yet handled, not already evicted, while the target is unmet; after every success or already-evicted pod the pod is marked, its release credited for all targets and the target re-tested before any further eviction; a met target stops the loop; the eviction depends on the victim's own contribution (one known finding); candidates pass all eligibility filters, identically for memory and CPU; the comparator implements the published key order; the eviction-priority annotation cannot wrap. It does not decide amounts (minimality).",
+  "trusts go/ssa and the rule tables in internal/rules/c11.go; one recorded known finding (contribution gate) is reported as KNOWN-FINDING",
+  "DESIGN.md §4 C11")
